@@ -137,6 +137,16 @@ func build(c batchCase) ([]modbus.BuilderRequest, error) {
 }
 
 func buildTarget(b *modbus.Builder, target int) ([]modbus.BuilderRequest, error) {
+	{
+		// a second builder is alive and filled at the same time (a program with one builder per device): builders are independent
+		otherB := modbus.NewRequestBuilder("elsewhere:502", 9)
+		stranger := modbus.Field{Name: "stranger", ServerAddress: "elsewhere:502", UnitID: 9, Address: 4321, Type: modbus.FieldTypeUint64}
+		if target < 4 {
+			stranger.Type = modbus.FieldTypeCoil
+		}
+		otherB.AddAll([]modbus.Field{stranger, stranger, stranger})
+		_, _ = otherB.ReadHoldingRegistersTCP()
+	}
 	switch target {
 	case 0:
 		return b.ReadCoilsTCP()
